@@ -51,6 +51,36 @@ CLAIMED = {
    note='Trusted: Coq kernel; extraction+driver; h_eval harness and the eval hooks (snapshots). The evaluator is an oracle.',
    technique='Coq proof parametric in the evaluator + differential before/after snapshots of the real context',
    ref='DESIGN.md §8 C13, notes/C13.md'),
+ 'C01': dict(
+   text='Full strength, 19 theorems, no axioms (coq/Properties/C01.v), for limb vectors of ARBITRARY length incl. non-canonical ones (leading zero limbs): the limb-level mirror of biguint.rs satisfies add/sub/mul/cmp/lshift/rshift/divmod (binary long division, all early exits)/gcd (fuel proved sufficient)/pow = arithmetic on N (sub panics iff the result would be negative, and the rational layer never calls it so); bigrat.rs add/mul/div/neg/simplify/cmp/pow = arithmetic in Q; expression level C01_exact: for every expression of the property fragment (literals, + - * /, unary minus, integer powers of rationals, complex field operations, real/imag/conjugate) the model result is flagged exact and equals the value computed in Q[i], and the only errors are division by zero, 0^0 and an exponent beyond machine range, each only when the expression contains such a node. Three arithmetic defects were found by failing proofs on the faithful model (lost carry in BigUint::add, leading-zero exponents, unreduced integer exponents) and repaired by fix: commits; the old code is kept as *_old with refutation witnesses. Tie: L1 every BigUint/BigRat operation on raw limb vectors through hooks (value AND representation), L2 random expression trees through evaluate compared at representation level via @debug, against the model and against independent Python Fraction arithmetic; debug and release profiles.',
+   note='Trusted: Coq kernel; extraction+driver; hooks verif_hooks/num.rs. Interrupts not modelled. Outside the fragment (pi patterns, units, roots, complex powers) the model answers COutside.',
+   technique='Coq proof by induction over limb vectors / expressions against N and Q + representation-level differential correspondence',
+   ref='DESIGN.md §8 C01, notes/C01.md'),
+ 'C02': dict(
+   text='Full strength incl. the canonical-form stretch item, 10 theorems, no axioms (coq/Properties/C02.v): lexing the rendering of any structured literal (bases 2..36 and prefix forms, digit separators under both styles, fraction, recurring digits, exponent) yields exactly the value the notation defines; integer printing (u128 grouped divisor = base^rounds, maximal) yields the canonical digits of n in every base; terminates_in_base is exact; the printed integer part + non-recurring + recurring digits denote |x| (geometric series) and the pre-period is the least and the period divides every period (Brent, for any fuel on which the run returns Ok); fraction and mixed-fraction layouts denote x; every exact rendering read back gives the same value (C02_roundtrip) and switching the separator style only swaps . and , (C02_sep_swap). Tie: L1 format/lex hooks and L2 `X to base B to float|fraction|mixed_fraction|exact` re-evaluated, vs model and an independent Python reference renderer; thorough: every p/q with q <= 64 x bases 2..36 x 5 styles x both separators.',
+   note='Trusted: Coq kernel; extraction+driver; hooks verif_hooks/fmt.rs (values via existing (de)serializers). Fuel sufficiency of Brent is not proved (out-of-fuel would surface in the tie). Dice literals and superscripts are outside this model (C17, C06).',
+   technique='Coq proof (induction, geometric-series identity, Brent minimality) + differential correspondence with exact reference',
+   ref='DESIGN.md §8 C02, notes/C02.md'),
+ 'C03': dict(
+   text='18 theorems, no axioms (coq/Properties/C03.v): text shown without approx. reads back to the exact value for every style (C03_marker); n dp output is floor(|x| b^n)/b^n and flagged exact iff nothing was dropped; n sf on integers likewise; integer n-th root r^n <= x < (r+1)^n with exact flag iff perfect power; rational roots/powers exact iff a rational root exists, otherwise result and true root lie in an interval of relative width 2^-48 < 1e-12; the exact flag of any expression over exact/approximate leaves is false as soon as an approximate leaf is used (C03_flag_monotone, full strength since fix 198ba44; the old zero short-cut refuted with witness 1 + (sqrt 2 - sqrt 2)). Partial: the cut position of `n sf` on non-integers is covered by correspondence only (n = 0..60). A second marker defect (pi*pi unit scale) was found by the tie and repaired (4dad8b2). Tie: L1 hooks and L2 to N dp / N sf / roots / mixed exact-approximate expressions vs model and Python Fraction reference.',
+   note='Trusted: Coq kernel; extraction+driver; hooks. Units layer flags are checked by probes, not modelled here (see C04/C05).',
+   technique='Coq proof + differential correspondence with exact truncation/root oracles',
+   ref='DESIGN.md §8 C03, notes/C03.md'),
+ 'C04': dict(
+   text='12 theorems, no axioms (coq/Properties/C04.v). General, for ALL rational magnitudes and all unit lists (pi a formal symbol): conversion is multiplication by a ratio independent of x (C04_convert_formula/_ratio), converting back returns x exactly incl. the affine temperature case (C04_convert_inverse), going through an intermediate unit equals converting directly (C04_convert_transitive), scaling commutes (C04_convert_linear), sums use scale only. Finite, over the unit table regenerated from /repo on every run by the tree\'s own resolver and proved by kernel computation: all scales non-zero, temperature fixed points, and 289 defining-standard factors (inch = 2.54 cm, lb = 0.45359237 kg, ...; a table edit that breaks one names the entry). Tie: L2 `@noapprox (x A to B) to fraction`, round trips, (1 A)/(1 B) on sampled pairs/triples per dimension class (thorough: all ordered pairs per class, 570k evaluations) vs exact arithmetic on the resolved records.',
+   note='Trusted: Coq kernel + vm_compute (finite obligations); tools/gen_tables.py translator and the units hook (raw tables verbatim; resolved records); Value::simplify is not modelled; laws carry the hypothesis "result flagged exact" (proved for rational scales).',
+   technique='Coq proof (general laws) + kernel computation over a translator-generated table + differential correspondence',
+   ref='DESIGN.md §8 C04, notes/C04.md'),
+ 'C10': dict(
+   text='36 theorems, no axioms (coq/Properties/C10.v), unbounded: factorial, fibonacci, nCr, nPr, mod = the mathematical functions for any representation of the naturals involved; bitwise and/or/xor = N.land/lor/lxor for limb lists of any lengths incl. leading zeros; shifts = N.shiftl/shiftr for every accepted count; try_as_usize accepts exactly the values below 2^64 whatever the representation (after fix 2c2d128); floor/ceil/round = the exact mathematical rounding for EVERY rational (after fix 7d3085c replaced the f64 route; the old route is refuted: every value >= 2^64+1 came back wrong); domain errors for negative, fractional, non-real arguments incl. nPr (fix 07532bc); number -> English words is inverted by an independent reader for n < 10^66 and errors beyond; roman numerals have value n and greedy canonical form for 1..10^9; char/codepoint round trip on scalars. Tie: L1 raw-limb hooks, L2 evaluate vs Python int/Fraction and the Coq spec (thorough: every Unicode scalar, all 0<=r<=n<=400, 2.6M evaluations).',
+   note='Trusted: Coq kernel; extraction+driver; hooks. Not modelled: Real::approximate for pi-multiples in floor etc. (L2 only), the decimal formatter inside to_words.',
+   technique='Coq proof against N/Z/binomial specs (bit-level via N.testbit) + differential correspondence',
+   ref='DESIGN.md §8 C10, notes/C10.md'),
+ 'C11': dict(
+   text='16 theorems, no axioms (coq/Properties/C11.v). Finite theorems are exhaustive kernel computations (vm_compute + forallb_forall) over the unit table regenerated from /repo on every run: every one of the ~960 names resolves and the model lookup reproduces the tree\'s resolved value for each; singular = plural; short = long spellings; sqX = X2 = X^2 and cbX = X3 = X^3 (after fix commits e3398ae, d57dc01 for the dm family and gal/dyne, found here); prefix legality for all 76 x 960 prefix-name pairs (a prefixed name resolves iff the rule allows); no-prefix units reject prefixes; prefixable definitions reachable except the listed T/link (open finding). General lemmas: lookup is deterministic and selects the first definition, custom units take precedence and follow the same rules. Four open findings are listed (shadowed prefixable definitions, custom long prefixes unusable, cyclic custom unit aborts, `as` parsed as a keyword). Tie: the table is the tie (translator) plus L2 `1 <name>`, `(1 a) == (1 b)`, `1 <prefix><name> to <name>`, case variants, every custom-unit attribute kind.',
+   note='Trusted: Coq kernel + vm_compute; tools/gen_tables.py and the units hook (the hook_needed accessor of the property); deterministic fake exchange rates for currency units.',
+   technique='kernel computation over a translator-generated table (exhaustive) + general lookup lemmas + differential correspondence',
+   ref='DESIGN.md §8 C11, notes/C11.md'),
  'C06': dict(
    text='Partial by nature. Proved (coq/Properties/C06.v): panic-freedom of the modelled functions reachable from evaluate/preview/inline (JSON escaper and inline JSON for all Unicode text, superscript-exponent accumulation for digit strings of any length in checked and unchecked builds, the i^y selector); the other areas add their own no-panic theorems in their property files. Observed, not proved: everything else, by crash probes on the default build (feature off) in debug (overflow checks) and release profiles over 48 context configurations: suite+manual corpus read from /repo, mutations, token soup, every typed prefix, bounded nesting ramps. Native stack exhaustion is reachable (two open known findings).',
    note='Trusted: Coq kernel; extraction+driver; harness_plain; 8 MiB stack / 4 GiB address-space limits of the probe workers. Hangs and >=128 MiB allocation failures are counted as resource exhaustion (C07), not crashes. Models tied by correspondence (superscripts vs evaluate).',
